@@ -52,6 +52,10 @@ type rogueServer struct {
 	mu   sync.Mutex
 	seen int
 	done int
+	// negotiate: which of the client's ALPN offers the rogue selects: "auth-chunk" (as
+	// the real listener does), "extra" (an application protocol the node offered),
+	// "preference" (the node's certificate-preference entry) or "none"
+	negotiate string
 }
 
 func newRogue(mint func(req *types.GenerateServerCertificatesRequest) (*tls.Certificate, error)) *rogueServer {
@@ -99,6 +103,18 @@ func newRogue(mint func(req *types.GenerateServerCertificatesRequest) (*tls.Cert
 							np = p
 							break
 						}
+					}
+					switch r.negotiate {
+					case "extra", "preference":
+						for _, p := range h.SupportedProtos {
+							isLib := strings.HasPrefix(p, "v1-nodee")
+							if (r.negotiate == "extra" && !isLib) || (r.negotiate == "preference" && strings.HasPrefix(p, nodeenrollment.CertificatePreferenceV1Prefix)) {
+								np = p
+								break
+							}
+						}
+					case "none":
+						return &tls.Config{Certificates: []tls.Certificate{*cert}, ClientAuth: tls.RequestClientCert, ClientCAs: r.cas, MinVersion: tls.VersionTLS13}, nil
 					}
 					return &tls.Config{Certificates: []tls.Certificate{*cert}, NextProtos: []string{np}, ClientAuth: tls.RequestClientCert, ClientCAs: r.cas, MinVersion: tls.VersionTLS13}, nil
 				}})
@@ -205,6 +221,7 @@ func TestProp_RogueServers(t *testing.T) {
 			}
 		}
 		rogue := newRogue(mint)
+		rogue.negotiate = rapid.SampledFrom([]string{"auth-chunk", "auth-chunk", "extra", "preference", "none"}).Draw(t, "rogueNegotiates")
 		rogue.cas = x509.NewCertPool()
 		rogue.cas.AddCert(cur.Cert)
 		rogue.cas.AddCert(next.Cert)
@@ -220,8 +237,14 @@ func TestProp_RogueServers(t *testing.T) {
 		}
 		// which trusted roots can the node use right now? next is trusted only while valid
 		expectOK := variant == "control-current-root" || (variant == "control-next-root" && bothValid)
-		desc := map[string]any{"rogue": variant, "both_roots_valid": bothValid, "node_wrapper": len(nodeOpts) > 0}
-		rec.Case("rogue/"+variant, fmt.Sprint(variant, bothValid, len(nodeOpts), len(opts)), !strings.HasPrefix(variant, "control"), func() any { return desc })
+		desc := map[string]any{"rogue": variant, "rogue_negotiates": rogue.negotiate, "both_roots_valid": bothValid, "node_wrapper": len(nodeOpts) > 0}
+		if strings.HasPrefix(variant, "control") && rogue.negotiate != "auth-chunk" {
+			// a holder of a trusted root that negotiates something else than the
+			// authentication protocol: either outcome is compatible with the statement
+			rec.Case("rogue/"+variant+"/negotiates-"+rogue.negotiate+"(not judged)", fmt.Sprint(variant, rogue.negotiate, bothValid), false, func() any { return desc })
+			return
+		}
+		rec.Case("rogue/"+variant, fmt.Sprint(variant, rogue.negotiate, bothValid, len(nodeOpts), len(opts)), !strings.HasPrefix(variant, "control"), func() any { return desc })
 		rogue.mu.Lock()
 		seen := rogue.seen
 		rogue.mu.Unlock()
